@@ -14,7 +14,7 @@ THEOREMS = ["Nun.parse_createDbLine", "Nun.replicateRequestCore_createDb", "Nun.
             "Nun.C04_finding_terminator_in_last_field", "Nun.C04_fanout_is_one_critical_section", "Nun.C04_forward_is_one_critical_section"]
 
 OPS = ["set a {v}", "set b {v}", "set a two words {v}", "remove a", "remove b", "increment n", "increment n 5", "increment n 0", "increment m{v} 0", "increment n -3", "remove n", "set-safe a {ver} s{v}", "create-user u{v} pw", "set-permissions u1 rw a*",
-       "snapshot false", "create-db d{v} tk", "set n 7", "resolve {v} t r 1 res{v}", "SNAP", "SNAP"]
+       "snapshot false", "create-db d{v} tk", "set n 7", "resolve {v} t r 1 res {v} end", "SNAP", "SNAP"]
 
 def setup(net, k, rng, strategy=None):
     if not cluster.form_cluster(net, k, rng): return False
